@@ -86,6 +86,12 @@ var fnameVariants = []struct {
 	{"strGetterStatus", "n Status", "func (s *T) Name() Status { return s.n }"},
 	{"strGetterPStatus", "n PStatus", "func (s *T) Name() PStatus { return s.n }"},
 	{"strGetterPtrPStatus", "n PStatus", "func (s *T) Name() *PStatus { return &s.n }"},
+	// String() returning a DEFINED string type: not a fmt.Stringer, :stringer must not pick it up
+	{"strFieldLStatus", "Name LStatus", ""},
+	{"strGetterLStatus", "n LStatus", "func (s *T) Name() LStatus { return s.n }"},
+	// getter-shaped methods PROMOTED from an embedded type (exported / unexported): the struct itself declares no member Name
+	{"embeddedGetter", "EmbG", ""},
+	{"embeddedLowerGetter", "EmbL", ""},
 }
 
 // decoyInterface is a second converter interface that carries every interface-level
@@ -117,7 +123,7 @@ func familyFName(thorough bool) []*scen.Cell {
 					tog := append([]int(nil), d...)
 					files := map[string]string{}
 					srcT := "S"
-					body := "type Emb struct{ Name string }\n\ntype Status int\n\nfunc (s Status) String() string { return \"status\" }\n\ntype PStatus int\n\nfunc (s *PStatus) String() string { return \"pstatus\" }\n\ntype T struct {\n\t" + v.fields + "\n}\n\n" + v.methods + "\n"
+					body := "type Emb struct{ Name string }\n\ntype EmbG struct{ n string }\n\nfunc (e EmbG) Name() string { return e.n }\n\ntype EmbL struct{ n string }\n\nfunc (e EmbL) name() string { return e.n }\n\ntype Label string\n\ntype LStatus int\n\nfunc (s LStatus) String() Label { return \"l\" }\n\ntype Status int\n\nfunc (s Status) String() string { return \"status\" }\n\ntype PStatus int\n\nfunc (s *PStatus) String() string { return \"pstatus\" }\n\ntype T struct {\n\t" + v.fields + "\n}\n\n" + v.methods + "\n"
 					var decls string
 					if imp == 1 {
 						// the source type lives in a sub-package of the cell
@@ -210,6 +216,7 @@ var f3Shapes = []struct {
 	{"e2", "E2", false},
 	{"locInner", "LInner", false},
 	{"locAnon", "LAnon", false},
+	{"extInner3", "ext.Inner3", true},
 }
 
 const f3Prelude = scen.TypePrelude + `
@@ -344,6 +351,7 @@ func (s *S) GN() N            { return s.N }
 func (s *S) GP() *PT          { return s.P }
 func (s *S) GE() (int, error) { return s.g, nil }
 func (s S) V() int            { return s.g }
+func (s *S) GEN() (N, error)  { return s.N, nil }
 
 type D struct {
 	X int
@@ -361,7 +369,7 @@ func N2N(n N) N               { return n }
 `
 
 var f4Dst = []string{"X", "Y", "N.A", "M.A", "Q.A", "N", "Zz", "x"}
-var f4Src = []string{"A", "N.A", "G()", "GN().A", "P.A", "E", "Emb.E", "GE()", "B", "g", "Zz", "$1.A", "$2", "$3.A", "$1.G()", "$0", "$9", "$2.A", "V()", "GP().A", "a", "N", "$1.N"}
+var f4Src = []string{"A", "N.A", "G()", "GN().A", "P.A", "E", "Emb.E", "GE()", "B", "g", "Zz", "$1.A", "$2", "$3.A", "$1.G()", "$0", "$9", "$2.A", "V()", "GP().A", "a", "N", "$1.N", "GEN().A"}
 var f4Conv = []string{"I2I", "P2I", "I2IE", "I2S", "N2N", "ext.Itoa", "Other", "Missing"}
 
 type f4Meta struct {
